@@ -1,46 +1,65 @@
 """C20 — every component is set up once; user configuration always wins.
 
 Tie: (a) translator: configuration layers, the layer each `update` of configuration.py writes, the layer
-`apply_configuration_defaults` writes and the action order of `SimulationContext.setup` are regenerated
-from the source; Props/C20.lean re-decides the statements about them and instantiates the general
-theorems with them. (b) correspondence: generated forests of probe components (depth <= 4, fan-out <= 3,
-duplicate names at random depth - distinct objects and the same object twice -, names of framework
-managers, clashing defaults) supplied through `components=[...]` and `add_components` in random splits to
-a real `SimulationContext`, together with model-specification values, override arguments and component
-defaults over shared key paths; compared with Driver/C20.lean: outcome class of every stage, registered
-names, complete setup order (managers + components), the values every object reads through
-`builder.configuration` while it is set up, the fate of every write attempted from inside `setup`, the
-values after setup, writes / add_components / a second setup() after setup; deletions from setup (finding F18,
-signature `config-delete-after-freeze`: layered_config_tree does not test `_frozen` in __delattr__/__delitem__).
+`apply_configuration_defaults` writes, the action order of `SimulationContext.setup`, the operand order of
+`setup_components` are regenerated from the source; Props/C20.lean re-decides the statements about them and
+instantiates the general theorems with them. (b) correspondence on real `SimulationContext`s against
+Driver/C20.lean: outcome class of every stage, registered names, complete setup order (managers + components),
+the values every object reads through `builder.configuration` while it is set up, the fate of every write
+attempted from inside `setup`, the values after setup, writes / add_components / a second setup() afterwards,
+deletions from setup (finding F18, `config-delete-after-freeze`).
+
+Inputs are NOT normalised (notes/LESSONS.md): components reach the simulation through every route – the
+`components:` block of the model specification or a `components=` dict / LayeredConfigTree (strings parsed by the
+ComponentConfigurationParser into the importable classes of vcheck/c20_probes.py), the `components=` list,
+`add_components` in several batches (list / tuple / nested groups) – with `sub_components` returned as list, tuple,
+a new list per access, NEW child objects per access, or a generator; defaults declared through the property or as
+class attribute CONFIGURATION_DEFAULTS; configuration through every route – model specification as dict /
+LayeredConfigTree / YAML file (str and Path) in a temp dir, `configuration=` dict / LayeredConfigTree,
+`~/vivarium.yaml` (HOME is pointed at a temp dir for every simulation, the real home is never read), plugin
+configuration (clock kind, an optional probe manager with a name and defaults of the generator's choice) as argument
+or in the specification; values of every YAML-able type incl. None / 0 / False / "" / []; the same key at different
+depths (prefix conflicts) between components, managers and user layers; earlier simulations in the same process with
+the same names / classes / keys and different values. The oracle derives every expectation from the case (the
+configuration) and from constants taken from the property's anchors, never from values read back.
 """
 from __future__ import annotations
 
+import atexit
+import copy
 import hashlib
+import os
 import random
+import shutil
+import tempfile
 
 from .. import impl
 from ..runner import Prop
 
-# names the generator uses for "a component named like a framework manager" (the oracle and the model use
-# the names the running code reports, not this list)
-MGR_NAMES = ["population_manager", "event_manager", "values_manager", "randomness_manager", "results_manager",
-             "life_cycle_manager", "lookup_table_manager", "datetime_clock", "logging_manager"]
-# manager defaults a user may safely override (value pools keep the managers' own setup happy)
-# (falsy values included where the manager's setup tolerates them: a user may set a key to None / 0 / False / "" / [])
+# framework managers in the order engine.py registers them (property anchor "engine.py 169-182"); the oracle uses
+# THIS list, not what the running code reports
+BUILTIN_MGRS = ["logging_manager", "life_cycle_manager", "resource_manager", "values_manager", "population_manager", "<clock>",
+                "randomness_manager", "event_manager", "lookup_table_manager", "artifact_manager", "results_manager"]
+CLOCK_NAME = {"datetime": "datetime_clock", "simple": "simple_clock"}
+MGR_NAMES = [m for m in BUILTIN_MGRS if m != "<clock>"] + ["datetime_clock", "simple_clock", "probe_manager"]
+# manager defaults a user may safely override (value pools keep the managers' own setup happy; falsy values where the
+# manager's setup tolerates them)
 MGR_PATHS = {"population.population_size": [0, 3, 7], "randomness.random_seed": [1, 5, 42, None, False, "", []],
              "time.step_size": [2, 3], "interpolation.validate": [None, 0, False, ""], "interpolation.extrapolate": [None, 0, False],
              "interpolation.order": [None, False, ""], "stratification.default": [None, 0, ""],
              "randomness.additional_seed": [0, False, "", []]}
 # prefix-free leaf paths at nesting depths 1-4
 POOL = [f"s{a}.k{b}" for a in range(3) for b in range(4)] + ["s3.d.k0", "s3.d.k1", "s3.e.k0", "s4.a.b.k0", "s4.a.b.k1", "s4.a.c", "t0", "t1"]
-# what a user may supply besides ordinary values: every one of these is a VALUE (None is not "unset")
 FALSY = [None, 0, False, "", []]
+# every YAML-able kind of value (a dict is structure, not a value); "None" / "0" are strings on purpose
+ODD = [1.5, -2.25, -3, "text", "None", "0", [1, 2], [[1], [2, None]], True, 2 ** 40, "a b: c"]
 HOWS = ["update", "setattr", "setitem", "sub_update"]
-REJECTIONS = ("dupname", "dupvalue")
+SUBS = ["list", "tuple", "copy", "fresh"]
+PROBE_PKG = ["vcheck", "c20_probes"]
 
 
 def tok(v) -> str:
-    """opaque, protocol-safe token of a configuration value"""
+    """opaque, protocol-safe token of a configuration value (type-sensitive: 1, True, 1.0, "1" all differ)"""
     if isinstance(v, bool):
         return "bT" if v else "bF"
     if isinstance(v, int):
@@ -51,7 +70,7 @@ def tok(v) -> str:
         return "sE"
     if isinstance(v, list) and not v:
         return "lE"
-    return "h" + hashlib.sha1(repr(v).encode()).hexdigest()[:8]
+    return "h" + hashlib.sha1((type(v).__name__ + repr(v)).encode()).hexdigest()[:8]
 
 
 def leaves(d, prefix=()):
@@ -93,6 +112,20 @@ def depth(forest):
     return 0 if not forest else 1 + max(depth(t["c"]) for t in forest)
 
 
+def under(key, p) -> bool:
+    return p == key or p.startswith(key + ".")
+
+
+def strict_conflict(p, q) -> bool:
+    return p != q and (under(p, q) or under(q, p))
+
+
+def nestable(pairs) -> bool:
+    """can the pairs be written as ONE nested dict (no path strictly below another one)"""
+    ps = [p for p, _ in pairs]
+    return not any(strict_conflict(a, b) for i, a in enumerate(ps) for b in ps[i + 1:])
+
+
 def classify(e) -> str:
     """exception -> small enum; never looks at messages (exception classes and chaining only)"""
     from layered_config_tree import ConfigurationError, DuplicatedConfigurationError
@@ -103,7 +136,7 @@ def classify(e) -> str:
         if isinstance(ctx, DuplicatedConfigurationError):
             return "dupvalue"          # apply_configuration_defaults: raised while handling the duplicate
         if isinstance(ctx, ConfigurationError):
-            return "structure"
+            return "structure"         # … while handling "alter the structure of the configuration"
         if isinstance(e, ComponentConfigError) and ctx is None:
             return "dupname"           # OrderedComponentSet.add
     if isinstance(e, DuplicatedConfigurationError):
@@ -113,8 +146,13 @@ def classify(e) -> str:
     if isinstance(e, InvalidTransitionError):
         return "transition"
     if type(e) is ConfigurationError:
-        return "frozen"
+        return "cfgerr"                # frozen, or a shape conflict: the library uses one class for both
     return "other:" + type(e).__name__
+
+
+def coarse(o: str) -> str:
+    """model classes `frozen` / `structure` are one class (bare ConfigurationError) when raised by the library itself"""
+    return "cfgerr" if o in ("frozen", "structure", "cfgerr") else o
 
 
 def _read(cfg, path):
@@ -141,6 +179,8 @@ def _write(cfg, path, val, how) -> str:
             else:
                 node = None
                 break
+        if not isinstance(node, LayeredConfigTree):
+            node = None
         if how == "update" or node is None or (how != "sub_update" and parts[-1] not in node):
             cfg.update(nest([[path, val]]))
         elif how == "sub_update":
@@ -175,106 +215,196 @@ def _delete(cfg, key, how) -> str:
     return "refused" if parts[-1] in node else "ok"
 
 
-def under(key, p) -> bool:
-    return p == key or p.startswith(key + ".")
+# --------------------------------------------------------------------------------------------- running one simulation
+
+def plugin_dict(plugins):
+    """the `plugins` block for a case (None = defaults)"""
+    out = {}
+    if plugins["clock"] == "simple":
+        out["required"] = {"clock": {"controller": "vivarium.framework.time.SimpleClock",
+                                     "builder_interface": "vivarium.framework.time.TimeInterface"}}
+    if plugins.get("opt"):
+        out["optional"] = {"probe": {"controller": "vcheck.c20_probes.ProbeManager", "builder_interface": None}}
+    return out
 
 
-_MGR_INFO = None
+_SCRATCH = None
 
 
-def manager_info():
-    """[(name, [[path, token]…])] of the managers a default context registers (same for every context)"""
-    global _MGR_INFO
-    if _MGR_INFO is None:
+def scratch() -> str:
+    """one scratch directory per process (outside /repo and /verif), removed at exit"""
+    global _SCRATCH
+    if _SCRATCH is None or not os.path.isdir(_SCRATCH):
+        _SCRATCH = tempfile.mkdtemp(prefix="c20-")
+        os.mkdir(os.path.join(_SCRATCH, "home"))
+        atexit.register(shutil.rmtree, _SCRATCH, ignore_errors=True)
+    return _SCRATCH
+
+
+class _Home:
+    """HOME -> a scratch directory (holding `vivarium.yaml` exactly when the case has one); the real home is never read"""
+
+    def __init__(self, pairs):
+        self.pairs = pairs
+
+    def __enter__(self):
+        import yaml
+        self.dir = os.path.join(scratch(), "home")
+        self.file = os.path.join(self.dir, "vivarium.yaml")
+        if os.path.exists(self.file):
+            os.unlink(self.file)
+        if self.pairs is not None:
+            with open(self.file, "w") as f:
+                yaml.safe_dump(nest(self.pairs), f)
+        self.old = os.environ.get("HOME")
+        os.environ["HOME"] = self.dir
+        return self.dir
+
+    def __exit__(self, *a):
+        if self.old is None:
+            os.environ.pop("HOME", None)
+        else:
+            os.environ["HOME"] = self.old
+        if os.path.exists(self.file):
+            os.unlink(self.file)
+
+
+_MGR_INFO = {}
+
+
+def builtin_manager_info(clock):
+    """[(name, [[path, token]…])] of the managers a context with this clock registers – a PARAMETER of the model
+    (their defaults are none of the property's business); the oracle does not use it"""
+    if clock not in _MGR_INFO:
         impl.load()
         from vivarium.framework.engine import SimulationContext
-        SimulationContext._clear_context_cache()
-        sim = SimulationContext(components=[], logging_verbosity=0)
-        _MGR_INFO = [[m.name, [[p, tok(v)] for p, v in leaves(m.configuration_defaults)]]
-                     for m in sim._component_manager._managers]
-    return _MGR_INFO
+        with _Home(None):
+            SimulationContext._clear_context_cache()
+            sim = SimulationContext(components=[], plugin_configuration=plugin_dict({"clock": clock}) or None, logging_verbosity=0)
+        _MGR_INFO[clock] = [[m.name, [[p, tok(v)] for p, v in leaves(m.configuration_defaults)]]
+                            for m in sim._component_manager._managers]
+    return _MGR_INFO[clock]
 
 
-def _run(case):
+def model_managers(case):
+    info = [list(x) for x in builtin_manager_info(case["plugins"]["clock"])]
+    opt = case["plugins"].get("opt")
+    if opt:
+        info.append([opt["n"], [[p, tok(v)] for p, v in canon_pairs(opt["d"])]])
+    return info
+
+
+def expected_managers(case):
+    """from the case and the property's anchors only"""
+    names = [CLOCK_NAME[case["plugins"]["clock"]] if m == "<clock>" else m for m in BUILTIN_MGRS]
+    opt = case["plugins"].get("opt")
+    return names + ([opt["n"]] if opt else [])
+
+
+def _specs(forest):
+    out = {}
+    for t in preorder(forest):
+        out[str(t["id"])] = dict(t, c=[c["id"] for c in t["c"]])
+    return out
+
+
+def ctor_forest(case):
+    return case["forest"][:case["n_spec"] + case["batches"][0]]
+
+
+def _run_single(case):
     impl.load()
+    import yaml
     from layered_config_tree import LayeredConfigTree
-    from vivarium import Component
     from vivarium.framework.engine import SimulationContext
 
-    LOG = []
-    DELETED = []
+    from .. import c20_probes as cp
+
     probes = case["probes"]
-    attempts = case["attempts"]
     flat_names = [t["n"] for t in preorder(case["forest"])]
-    deleter = flat_names[-1] if (case.get("delete") and flat_names) else None
-
-    class P(Component):
-        def __init__(self, nm, subs, defaults):
-            super().__init__()
-            self.nm, self._subs, self._d = nm, subs, defaults
-
-        @property
-        def name(self):
-            return self.nm
-
-        @property
-        def sub_components(self):
-            return self._subs
-
-        @property
-        def configuration_defaults(self):
-            return self._d
-
-        def setup(self, builder):
-            seen = [_read(builder.configuration, p) for p in probes]
-            tried = [[self.nm, p, _write(builder.configuration, p, v, how)] for n, p, v, how in attempts if n == self.nm]
-            LOG.append(["comp", self.nm, seen, tried])
-            if self.nm == deleter:
-                DELETED.append([self.nm, case["delete"][0], _delete(builder.configuration, *case["delete"])])
-
-    memo = {}
-
-    def build(node):
-        if node["id"] not in memo:
-            memo[node["id"]] = P(node["n"], [build(c) for c in node["c"]], nest(node["d"]))
-        return memo[node["id"]]
-
-    def wrap(kind, pairs):
-        if kind is None:
-            return None
-        d = nest(pairs)
-        return LayeredConfigTree(d) if kind == "lct" else d
-
-    obs = {"mgrs": manager_info(), "stages": [], "pre": [], "setup": None, "values": None, "post": [],
-           "late_add": None, "setup_twice": None}
-    ms = wrap(case["ms_kind"], [["configuration." + p, v] for p, v in case["ms"]])
-    ov = wrap(case["ov_kind"], case["ov"])
+    cp.reset(specs=_specs(case["forest"]), probes=probes, attempts=case["attempts"], read=_read, write=_write, delete_fn=_delete,
+             delete=case.get("delete"), deleter=flat_names[-1] if (case.get("delete") and flat_names) else None,
+             opt_manager=case["plugins"].get("opt") or {})
+    LOG = cp.STATE["log"]
+    obs = {"stages": [], "pre": [], "setup": None, "values": None, "post": [], "late_add": None, "setup_twice": None}
     forest = case["forest"]
-    cuts, pos = [], 0
-    for k in case["batches"]:
-        cuts.append(forest[pos:pos + k])
+    n_spec = case["n_spec"]
+    plug = plugin_dict(case["plugins"])
+    # ---- what goes where
+    block = None
+    if n_spec:
+        block = nest([[".".join(PROBE_PKG), [cp.spec_string(t) for t in forest[:n_spec]]]])
+    ms = {}
+    if case["ms"]:
+        ms["configuration"] = nest(case["ms"])
+    if block is not None and case["spec_via"] == "ms":
+        ms["components"] = block
+    if plug and case["plugins"].get("via") == "ms":
+        ms["plugins"] = plug
+    tmp = scratch()
+    try:
+        kind = case["ms_kind"]
+        if kind is None:
+            ms_arg = None
+        elif kind == "dict":
+            ms_arg = ms
+        elif kind == "lct":
+            ms_arg = LayeredConfigTree(ms)
+        else:
+            path = os.path.join(tmp, "model_spec.yaml")
+            with open(path, "w") as f:
+                yaml.safe_dump(ms, f)
+            import pathlib
+            ms_arg = path if kind == "yaml_str" else pathlib.Path(path)
+        ov = None if case["ov_kind"] is None else (LayeredConfigTree(nest(case["ov"])) if case["ov_kind"] == "lct" else nest(case["ov"]))
+        if case["spec_via"] == "cdict":
+            comps = block
+        elif case["spec_via"] == "clct":
+            comps = LayeredConfigTree(block)
+        else:
+            comps = [cp.build(t) for t in forest[n_spec:n_spec + case["batches"][0]]]
+            if not comps and case.get("no_list"):
+                comps = None
+        plug_arg = plug if (plug and case["plugins"].get("via") != "ms") else None
+        if plug_arg is not None and case["plugins"].get("arg_kind") == "lct":
+            plug_arg = LayeredConfigTree(plug_arg)
+        SimulationContext._clear_context_cache()
+        sim = None
+        with _Home(case.get("home")):
+            try:
+                sim = SimulationContext(model_specification=ms_arg, components=comps, configuration=ov,
+                                        plugin_configuration=plug_arg, logging_verbosity=0)
+                out = "ok"
+            except Exception as e:  # noqa: BLE001
+                out = classify(e)
+    finally:
+        if os.path.exists(os.path.join(tmp, "model_spec.yaml")):
+            os.unlink(os.path.join(tmp, "model_spec.yaml"))
+    reg = [c.name for c in sim._component_manager._components] if sim is not None else None
+    obs["stages"].append({"op": "ctor", "outcome": out, "registered": reg})
+    if out != "ok":
+        return obs
+    pos = n_spec + case["batches"][0]
+    for k, how in zip(case["batches"][1:], case["adds"]):
+        objs = [cp.build(t) for t in forest[pos:pos + k]]
         pos += k
-    SimulationContext._clear_context_cache()
-    sim = None
-    for i, batch in enumerate(cuts):
-        objs = [build(t) for t in batch]
+        if how.get("group") and len(objs) >= 2:          # nested list / tuple inside the supplied sequence
+            objs = objs[:-2] + [[objs[-2], (objs[-1],)]]
+        arg = tuple(objs) if how.get("container") == "tuple" else objs
         try:
-            if i == 0:
-                sim = SimulationContext(model_specification=ms, components=objs, configuration=ov, logging_verbosity=0)
-            else:
-                sim.add_components(objs)
+            sim.add_components(arg)
             out = "ok"
         except Exception as e:  # noqa: BLE001
             out = classify(e)
-        reg = [c.name for c in sim._component_manager._components] if (sim is not None and out == "ok") else None
-        obs["stages"].append({"op": "ctor" if i == 0 else "add", "outcome": out, "registered": reg})
+        obs["stages"].append({"op": "add", "outcome": out, "registered": [c.name for c in sim._component_manager._components] if out == "ok" else None})
         if out != "ok":
             return obs
     obs["mgrs_live"] = [m.name for m in sim._component_manager._managers]
     for p, v in case["pre"]:
         obs["pre"].append(_write(sim.configuration, p, v, "update"))
-    # observe manager setup: wrap the bound `setup` of every registered manager
-    for m in sim._component_manager._managers:
+    for m in sim._component_manager._managers:            # observe manager setup: wrap the bound `setup`
+        if isinstance(m, cp.ProbeManager):
+            continue                                      # logs (and writes) by itself
         def w(builder, _orig=m.setup, _n=m.name):
             LOG.append(["mgr", _n, [_read(builder.configuration, p) for p in probes], []])
             return _orig(builder)
@@ -284,17 +414,23 @@ def _run(case):
         out = "ok"
     except Exception as e:  # noqa: BLE001
         out = classify(e)
-    obs["setup"] = {"outcome": out, "log": [[k, n] for k, n, _, _ in LOG], "seen": [[n, s] for _, n, s, _ in LOG],
-                    "tried": [t for _, _, _, ts in LOG for t in ts], "deleted": DELETED[0] if DELETED else None}
+    deleted = cp.STATE.get("deleted")
+    obs["setup"] = {"outcome": out, "log": [["comp" if k == "comp" else "mgr", n] for k, n, _, _ in LOG],
+                    "seen": [[n, s] for _, n, s, _ in LOG], "tried": [t for _, _, _, ts in LOG for t in ts],
+                    "deleted": deleted[0] if deleted else None}
     if out != "ok":
         return obs
     obs["values"] = [[p, _read(sim.configuration, p)] for p in probes]
+    handle = sim.configuration
+    if case.get("post_handle") == "stored" and cp.STATE["handles"]:
+        handle = cp.STATE["handles"][0]                   # the object a component kept from its setup
     for p, v, how in case["post"]:
-        obs["post"].append(_write(sim.configuration, p, v, how))
+        obs["post"].append(_write(handle, p, v, how))
     if case["late_add"]:
         n0 = len(LOG)
+        cp.STATE["specs"]["late"] = {"id": "late", "n": "zz_late", "d": [], "c": []}
         try:
-            sim.add_components([P("zz_late", [], {})])
+            sim.add_components([cp.Probe("late")])
             out = "ok"
         except Exception as e:  # noqa: BLE001
             out = classify(e)
@@ -312,14 +448,60 @@ def _run(case):
     return obs
 
 
+# every judged simulation is preceded, inside run_impl (so also in a replay), by this one: same names, same probe classes,
+# an optional manager, a ~/vivarium.yaml that sets EVERY pool key, user values, a deletion – anything that leaks out of
+# it (module-level caches, class attributes, mutable defaults) shows up as a value nobody supplied
+def _warmup_case():
+    N = lambda i, n, d, c=(), **k: dict({"id": i, "n": n, "d": d, "c": list(c), "sub": "list", "defs": "property"}, **k)   # noqa: E731
+    return fill({
+        "forest": [N(0, "c0", [["s1.k0", 906]], [N(1, "c1", [["s1.k1", 907]], defs="class_attr")], sub="tuple"), N(2, "c2", [["t1", 908]], defs="class_attr")],
+        "n_spec": 1, "spec_via": "ms", "batches": [0, 1], "ms": [["s0.k1", 909], ["leak.m", 910]], "ms_kind": "yaml_str",
+        "ov": [["s0.k2", 911], ["leak.o", 912], ["population.population_size", 913]], "ov_kind": "dict",
+        "home": [[p, 920 + i] for i, p in enumerate(POOL + ["h.k0", "h.k1", "fresh.k0", "late.k0", "early.k0", "absent.k", "leak.h"])],
+        "plugins": {"clock": "simple", "opt": {"n": "probe_manager", "d": [["pm.k0", 914]]}, "via": "arg", "arg_kind": "dict"},
+        "probes": ["s0.k0"], "attempts": [["c0", "leak.w", 915, "update"]], "pre": [["leak.p", 916]], "post": [["leak.q", 917, "update"]],
+        "late_add": False, "setup_twice": False, "delete": ["s2", "delattr"]})
+
+
+def _run(case):
+    try:
+        _run_single(_warmup_case())
+    except Exception:  # noqa: BLE001
+        pass
+    for b in case.get("before", []):                     # earlier simulations in the same process really run
+        try:
+            _run_single(b)
+        except Exception:  # noqa: BLE001
+            pass
+    return _run_single(case)
+
+
 def _enc_defs(pairs, tokens=False):
-    """`tokens`: the values are protocol tokens already (manager_info), otherwise raw configuration values"""
+    """`tokens`: the values are protocol tokens already (manager info), otherwise raw configuration values"""
     return ";".join(f"{p}={v if tokens else tok(v)}" for p, v in pairs) if pairs else "-"
 
 
 def _enc_forest(forest):
     nodes = [f"{t['n']}:{len(t['c'])}:{_enc_defs(canon_pairs(t['d']))}" for t in preorder(forest)]
     return f"{len(forest)} {','.join(nodes) if nodes else '-'}"
+
+
+def has_gen(forest):
+    return any(t.get("sub") == "gen" for t in preorder(forest))
+
+
+def fill(case):
+    """defaults for the fields a hand-written / older case may omit"""
+    c = dict(case)
+    c.setdefault("n_spec", 0)
+    c.setdefault("spec_via", None)
+    c.setdefault("adds", [{"container": "list", "group": False}] * (len(c["batches"]) - 1))
+    c.setdefault("home", None)
+    c.setdefault("plugins", {"clock": "datetime", "opt": None})
+    c.setdefault("post_handle", "sim")
+    c.setdefault("delete", None)
+    c.setdefault("before", [])
+    return c
 
 
 class C20(Prop):
@@ -331,21 +513,23 @@ class C20(Prop):
                  "and over the interpreted setup skeleton; decide over the layer / update / skeleton tables regenerated from "
                  "configuration.py, components/manager.py and engine.py) + exact correspondence on real SimulationContexts")
     trusted_extra = ["layered_config_tree (third party) is modelled as layered lookup over (layer, leaf path) entries: one value per "
-                     "layer and path, outermost layer wins, freeze() makes every write raise; only prefix-free leaf paths are generated"]
-    partial = None
-    n_quick = 1500
+                     "layer and path, outermost layer wins, one tree shape for all layers, freeze() makes every write raise, deletion "
+                     "ignores freeze() (F18)"]
+    partial = ("frozen_after_setup_partial covers writes (update / assignment); deletion after freeze() is the recorded finding F18 "
+               "(config-delete-after-freeze), reproduced by the model and replayed on every run")
+    n_quick = 1100
     n_thorough = 8000
     workers = 1
-    rule = ("each case is one real SimulationContext: a forest of probe components (depth <= 4, fan-out <= 3, up to ~16 nodes; "
-            "duplicate names as distinct objects or the same object, at any depth; names of framework managers; clashing defaults "
-            "between components and with managers) supplied through components=[...] and 0-2 add_components calls, with "
-            "model-specification values (dict or LayeredConfigTree), override arguments and component defaults over shared key "
-            "paths, writes attempted from setup() and afterwards; distinct by case hash; non-trivial = accepted with nesting and a "
-            "user value over a default, or rejected because of a name/default clash below the top level")
+    rule = ("each case is one real SimulationContext (preceded by 0-2 earlier simulations in the same process): a forest of probe "
+            "components supplied through every route (specification block / components= dict / list / add_components batches), "
+            "every sub_components container, both ways of declaring defaults; configuration through every route (dict / "
+            "LayeredConfigTree / YAML file / ~/vivarium.yaml in a temp HOME / override argument / plugin configuration) with values "
+            "of every YAML-able type over shared key paths; one injected fault in about half of the cases; distinct by case hash; "
+            "non-trivial = accepted with nesting and a user value over a default, or rejected because of a clash below the top level")
 
     # ------------------------------------------------------------------ generation
     def _tree(self, rng, d, names, ids, budget):
-        n = {"id": ids[0], "n": names.pop(), "d": [], "c": []}
+        n = {"id": ids[0], "n": names.pop(), "d": [], "c": [], "sub": rng.choice(SUBS), "defs": rng.choice(["property", "class_attr"])}
         ids[0] += 1
         budget[0] -= 1
         if d < 4:
@@ -355,70 +539,161 @@ class C20(Prop):
                 n["c"].append(self._tree(rng, d + 1, names, ids, budget))
         return n
 
+    @staticmethod
+    def _value(rng, rate_falsy, rate_odd, lo, hi):
+        r = rng.random()
+        if r < rate_falsy:
+            return copy.deepcopy(rng.choice(FALSY))
+        if r < rate_falsy + rate_odd:
+            return copy.deepcopy(rng.choice(ODD))
+        return rng.randint(lo, hi)
+
     def generate(self, rng: random.Random, i: int, tier: str):
+        case = self._gen(rng, allow_before=True)
+        return case
+
+    def _gen(self, rng, allow_before, like=None):
         names = [f"c{k}" for k in range(24)]
         rng.shuffle(names)
         ids, budget = [0], [rng.choice([1, 3, 6, 10, 16])]
         forest = []
-        for _ in range(rng.choice([0, 1, 1, 2, 2, 3, 4])):
+        for _ in range(rng.choice([0, 1, 1, 2, 2, 3, 4, 5, 6])):
             if budget[0] <= 0:
                 break
             forest.append(self._tree(rng, 1, names, ids, budget))
+        if like is not None:                                     # an earlier simulation: same names, classes and keys
+            forest = copy.deepcopy(like["forest"])
+            rng.shuffle(forest)
         flat = preorder(forest)
         pool = POOL[:]
         rng.shuffle(pool)
-        npaths = rng.choice([3, 5, 8, len(pool)])
-        pool = pool[:npaths]
-        free = pool[:]
-        for t in flat:                                        # defaults: globally distinct paths unless a fault is injected
-            for _ in range(rng.choice([0, 0, 1, 1, 2])):
-                if free:
-                    t["d"].append([free.pop(), rng.randint(1, 9)])
-        fault = rng.random()
-        if flat and fault < 0.16 and len(flat) >= 2:            # duplicate name, distinct objects, random depth
+        pool = pool[:rng.choice([3, 5, 8, len(pool)])]
+        rate_falsy, rate_odd = rng.choice([(0.0, 0.0), (0.3, 0.1), (0.2, 0.4), (0.6, 0.2), (1.0, 0.0)])
+        if like is None:
+            free = pool[:]
+            for t in flat:                                       # defaults: globally distinct paths unless a fault is injected
+                for _ in range(rng.choice([0, 0, 1, 1, 2])):
+                    if free:
+                        t["d"].append([free.pop(), self._value(rng, 0.0, rate_odd / 2, 1, 9)])
+        elif rng.random() < 0.7:                                 # same keys, other values (same class only if values repeat)
+            for t in flat:
+                t["d"] = [[p, self._value(rng, 0.0, 0.2, 1, 9)] for p, _ in t["d"]]
+        plugins = {"clock": rng.choice(["datetime", "datetime", "simple"]), "opt": None, "via": rng.choice(["arg", "arg", "ms"]),
+                   "arg_kind": rng.choice(["dict", "lct"])}
+        if rng.random() < 0.3:
+            plugins["opt"] = {"n": "probe_manager", "d": [[p, rng.randint(1, 9)] for p in rng.sample(["pm.k0", "pm.k1", "pm.sub.k"], rng.randint(0, 2))]}
+        fault = rng.random() if like is None else 1.0
+        tag = None
+        if flat and fault < 0.12 and len(flat) >= 2:            # duplicate name, distinct objects, random depth
             a, b = rng.sample(flat, 2)
             b["n"] = a["n"]
-        elif flat and fault < 0.24:                              # the same object supplied twice (whole subtree shared)
+        elif flat and fault < 0.18:                              # the same object supplied twice (whole subtree shared)
             a = rng.choice(flat)
             host = rng.choice([None] + [t for t in flat if t is not a and not self._inside(a, t)])
             (forest if host is None else host["c"]).append(a)
-        elif flat and fault < 0.34:                              # a component named like a framework manager
+        elif flat and fault < 0.26:                              # a component named like a framework manager
             rng.choice(flat)["n"] = rng.choice(MGR_NAMES)
-        elif flat and fault < 0.50 and len(flat) >= 2:           # two components default the same key
+        elif flat and fault < 0.38 and len(flat) >= 2:           # two components default the same key
             a, b = rng.sample(flat, 2)
             if not a["d"]:
                 a["d"].append([rng.choice(pool), rng.randint(1, 9)])
             p, v = rng.choice(a["d"])
             if all(q != p for q, _ in b["d"]):
-                b["d"].append([p, v if rng.random() < 0.3 else rng.randint(10, 19)])
-        elif flat and fault < 0.56:                              # a component defaults a key a manager defaults
+                b["d"].append([p, copy.deepcopy(v) if rng.random() < 0.3 else rng.randint(10, 19)])
+        elif flat and fault < 0.43:                              # a component defaults a key a manager defaults
             p = rng.choice(list(MGR_PATHS))
-            rng.choice(flat)["d"].append([p, rng.choice(MGR_PATHS[p])])
+            rng.choice(flat)["d"].append([p, copy.deepcopy(rng.choice(MGR_PATHS[p]))])
+        elif flat and fault < 0.50:                              # the same key at different depths (component vs component / manager)
+            a = rng.choice(flat)
+            base = rng.choice([p for t in flat for p, _ in t["d"]] + list(MGR_PATHS) + [rng.choice(pool)])
+            if all(q != base for t in flat for q, _ in t["d"]) and base not in MGR_PATHS:
+                a["d"].append([base, rng.randint(1, 9)])
+            b = rng.choice(flat)
+            q = base + ".deep" if (rng.random() < 0.5 or "." not in base) else base.rsplit(".", 1)[0]
+            if nestable(b["d"] + [[q, 0]]) and all(x != q for x, _ in b["d"]):
+                b["d"].append([q, rng.randint(1, 9)])
+            tag = "prefix"
+        elif fault < 0.56:                                       # the optional manager clashes: name of a built-in manager / of a
+            kind = rng.choice(["builtin-name", "component-name", "builtin-default", "component-default"])   # component, their defaults
+            plugins["opt"] = plugins["opt"] or {"n": "probe_manager", "d": []}
+            if kind == "builtin-name":
+                plugins["opt"]["n"] = rng.choice(["population_manager", "results_manager", CLOCK_NAME[plugins["clock"]]])
+            elif kind == "component-name" and flat:
+                plugins["opt"]["n"] = rng.choice(flat)["n"]
+            elif kind == "builtin-default":
+                p = rng.choice(list(MGR_PATHS))
+                plugins["opt"]["d"] = [[p, copy.deepcopy(rng.choice(MGR_PATHS[p]))]]
+            elif flat:
+                t = rng.choice(flat)
+                if not t["d"]:
+                    t["d"].append([rng.choice(pool), rng.randint(1, 9)])
+                plugins["opt"]["d"] = [list(rng.choice(t["d"]))]
+        elif flat and fault < 0.58:                              # outside the signature: sub_components is a generator
+            rng.choice(flat)["sub"] = "gen"
         for t in flat:
-            t["d"] = canon_pairs(t["d"])
-        rng.shuffle(forest)                                      # supply order is random
-        defaulted = [p for t in flat for p, _ in t["d"]]
+            t["d"] = canon_pairs(t["d"]) if nestable(t["d"]) else t["d"][:1]
+        if like is None:
+            rng.shuffle(forest)                                  # supply order is random
+        defaulted = [p for t in flat for p, _ in t["d"]] + [p for p, _ in (plugins["opt"] or {"d": []})["d"]]
         cand = defaulted * 2 + pool + list(MGR_PATHS)
+        if like is not None:                                     # aim at what the main simulation leaves to defaults / leaves unset
+            cand = cand + [p for p in like["probes"] if p not in MGR_PATHS] * 2
 
-        def pick(k, base):
+        def pick(k, base, allow_mgr=True):
             out, seen = [], set()
             for _ in range(k):
                 p = rng.choice(base) if base else None
-                if p is None or p in seen:
+                if p is None or p in seen or (p in MGR_PATHS and not allow_mgr):
                     continue
                 seen.add(p)
                 if p in MGR_PATHS:
-                    v = rng.choice(MGR_PATHS[p])
+                    v = copy.deepcopy(rng.choice(MGR_PATHS[p]))
                 else:
-                    v = rng.choice(FALSY) if rng.random() < falsy_rate else rng.randint(20, 99)
+                    v = self._value(rng, rate_falsy, rate_odd, 20, 99)
                 out.append([p, v])
-            return out
-        falsy_rate = rng.choice([0.0, 0.3, 0.6, 1.0])
+            return out if nestable(out) else out[:1]
         ms = pick(rng.choice([0, 1, 2, 4]), cand)
         ov = pick(rng.choice([0, 1, 2, 4]), cand + [p for p, _ in ms] * 2)
-        ms_kind = rng.choice(["dict", "lct"]) if ms else rng.choice([None, None, "dict"])
+        home = pick(rng.choice([1, 2, 4]), cand + ["h.k0", "h.k1"], allow_mgr=False) if rng.random() < 0.3 else None
+        if rng.random() < 0.08 and defaulted:                    # a user value at another depth than a default / another user value
+            base = rng.choice(defaulted + [p for p, _ in ms])
+            q = base + ".deep" if (rng.random() < 0.5 or "." not in base) else base.rsplit(".", 1)[0]
+            tgt = rng.choice([ms, ov] + ([home] if home is not None else []))
+            if all(x != q for x, _ in tgt) and nestable(tgt + [[q, 0]]) and not any(under(q, m) for m in MGR_PATHS):
+                tgt.append([q, rng.randint(20, 99)])
+        ms, ov = canon_pairs(ms), canon_pairs(ov)
+        home = canon_pairs(home) if home is not None else None
+        # ---- routes for the components
+        n = len(forest)
+        n_spec, spec_via = 0, None
+        r = rng.random()
+        if n and r < 0.45 and not any(len({x["id"] for x in preorder([t])}) != len(preorder([t])) for t in forest):
+            n_spec = rng.randint(1, n) if rng.random() < 0.4 else rng.randint(1, max(1, n - 1))
+            spec_via = rng.choice(["ms", "ms", "cdict", "clct"])
+        rest = n - n_spec
+        mode = rng.random()
+        if spec_via in ("cdict", "clct"):
+            k0 = 0
+        elif mode < 0.4 or rest == 0:
+            k0 = rest
+        elif mode < 0.55 or rest == 1:
+            k0 = 0
+        else:
+            k0 = rng.randint(1, rest - 1)
+        left = rest - k0
+        batches = [k0]
+        want = rng.choice([1, 1, 2, 3])                           # several add_components calls, not one by luck
+        while left > 0:
+            k = left if len(batches) >= want else rng.randint(1, max(1, left - (want - len(batches))))
+            batches.append(k)
+            left -= k
+        if left == 0 and rng.random() < 0.05:
+            batches.append(0)                                    # add_components([])
+        adds = [{"container": rng.choice(["list", "tuple"]), "group": rng.random() < 0.5} for _ in batches[1:]]
+        need_ms = bool(ms) or spec_via == "ms" or (plugins["via"] == "ms" and bool(plugin_dict(plugins)))
+        ms_kind = rng.choice(["dict", "lct", "yaml_str", "yaml_path"]) if need_ms else rng.choice([None, None, "dict", "yaml_str"])
         ov_kind = rng.choice(["dict", "lct"]) if ov else rng.choice([None, None, "dict"])
-        names_flat = [t["n"] for t in flat]
+        names_flat = [t["n"] for t in flat] + ([plugins["opt"]["n"]] if plugins["opt"] else [])
         attempts = []
         for _ in range(rng.choice([0, 0, 1, 2, 3])):
             if names_flat:
@@ -427,31 +702,29 @@ class C20(Prop):
         pre = [[rng.choice(cand + ["early.k0"]), rng.randint(200, 299)]] if rng.random() < 0.15 else []
         pre = [x for x in pre if x[0] not in MGR_PATHS]
         post = [[rng.choice(cand + ["late.k0"]), rng.randint(300, 399), rng.choice(HOWS)] for _ in range(rng.choice([0, 1, 1, 2]))]
-        used = {p for p, _ in ms} | {p for p, _ in ov} | set(defaulted) | {a[1] for a in attempts} | {p for p, _ in pre} \
-            | {p for p, _, _ in post}
+        used = {p for p, _ in ms} | {p for p, _ in ov} | {p for p, _ in (home or [])} | set(defaulted) | {a[1] for a in attempts} \
+            | {p for p, _ in pre} | {p for p, _, _ in post}
         probes = sorted(used)
-        extra = [p for p in POOL + list(MGR_PATHS) + ["absent.k"] if p not in used]
+        extra = [p for p in POOL + list(MGR_PATHS) + ["absent.k", "h.k0"] if p not in used]
         rng.shuffle(extra)
-        probes = (probes + extra[:2])[:14]
-        # how the top-level list is supplied
-        n = len(forest)
-        mode = rng.random()
-        if mode < 0.4 or n == 0:
-            batches = [n]
-        elif mode < 0.55 or n == 1:
-            batches = [0, n]
-        else:
-            a = rng.randint(1, n - 1)
-            b = rng.randint(a, n)
-            batches = [a] + [x for x in (b - a, n - b) if x > 0]
+        probes = (probes + extra[:3])[:16]
         delete = None
-        if rng.random() < 0.25:
+        if rng.random() < 0.2:
             keys = [p for p in cand if p not in MGR_PATHS]
             keys = keys + [".".join(p.split(".")[:k]) for p in keys for k in range(1, p.count(".") + 1)] + ["absent", "s0.nothing"]
             delete = [rng.choice(keys), rng.choice(["delattr", "delitem"])]
-        return {"forest": forest, "batches": batches, "ms": ms, "ms_kind": ms_kind, "ov": ov, "ov_kind": ov_kind,
-                "probes": probes, "attempts": attempts, "pre": pre, "post": post,
-                "late_add": rng.random() < 0.3, "setup_twice": rng.random() < 0.3, "delete": delete}
+        case = {"forest": forest, "n_spec": n_spec, "spec_via": spec_via, "batches": batches, "adds": adds,
+                "ms": ms, "ms_kind": ms_kind, "ov": ov, "ov_kind": ov_kind, "home": home, "plugins": plugins,
+                "probes": probes, "attempts": attempts, "pre": pre, "post": post, "post_handle": rng.choice(["sim", "stored"]),
+                "late_add": rng.random() < 0.3, "setup_twice": rng.random() < 0.3, "delete": delete, "before": []}
+        if tag:
+            case["mode"] = tag
+        if allow_before and rng.random() < 0.35:
+            for _ in range(rng.choice([1, 1, 2])):
+                b = self._gen(rng, allow_before=False, like=case if rng.random() < 0.75 else None)
+                b["delete"] = None if rng.random() < 0.7 else b["delete"]
+                case["before"].append(b)
+        return case
 
     @staticmethod
     def _inside(a, t):
@@ -459,25 +732,34 @@ class C20(Prop):
         return any(x is t for x in preorder([a]))
 
     def boundary(self):
-        def N(i, n, d=(), c=()):
-            return {"id": i, "n": n, "d": [list(x) for x in d], "c": list(c)}
+        def N(i, n, d=(), c=(), sub="list", defs="property"):
+            return {"id": i, "n": n, "d": [list(x) for x in d], "c": list(c), "sub": sub, "defs": defs}
 
         def case(forest, batches=None, ms=(), ov=(), attempts=(), pre=(), post=(), probes=None, late=False, twice=False,
-                 ms_kind="dict", ov_kind="dict", delete=None):
+                 ms_kind="dict", ov_kind="dict", delete=None, **kw):
             flat = preorder(forest)
+            opt = (kw.get("plugins") or {}).get("opt") or {"d": []}
             used = [p for t in flat for p, _ in t["d"]] + [p for p, _ in ms] + [p for p, _ in ov] + [a[1] for a in attempts] \
-                + [p for p, _ in pre] + [p for p, _, _ in post]
-            pr = probes if probes is not None else sorted(set(used)) + ["absent.k", "population.population_size"]
-            return {"forest": forest, "batches": batches or [len(forest)], "ms": [list(x) for x in ms],
-                    "ms_kind": ms_kind if ms else None, "ov": [list(x) for x in ov], "ov_kind": ov_kind if ov else None,
-                    "probes": pr, "attempts": [list(a) for a in attempts], "pre": [list(x) for x in pre],
-                    "post": [list(x) for x in post], "late_add": late, "setup_twice": twice,
-                    "delete": list(delete) if delete else None}
+                + [p for p, _ in pre] + [p for p, _, _ in post] + [p for p, _ in (kw.get("home") or [])] + [p for p, _ in opt["d"]]
+            pr = probes if probes is not None else \
+                sorted(p for p in set(used) if not any(under(p, q) and p != q for q in used)) + ["absent.k", "population.population_size"]
+            n_spec = kw.get("n_spec", 0)
+            need_ms = bool(ms) or kw.get("spec_via") == "ms" or (kw.get("plugins") or {}).get("via") == "ms"
+            c = {"forest": forest, "batches": batches or [len(forest) - n_spec], "ms": [list(x) for x in ms],
+                 "ms_kind": ms_kind if need_ms else None, "ov": [list(x) for x in ov], "ov_kind": ov_kind if ov else None,
+                 "probes": pr, "attempts": [list(a) for a in attempts], "pre": [list(x) for x in pre],
+                 "post": [list(x) for x in post], "late_add": late, "setup_twice": twice,
+                 "delete": list(delete) if delete else None}
+            c.update(kw)
+            return fill(c)
         chain = N(0, "a", [("s0.k0", 1)], [N(1, "b", [], [N(2, "c", [("s0.k1", 2)], [N(3, "d", [("s1.k0", 3)])])])])
         wide = N(0, "a", [], [N(1, "b", [], [N(4, "e"), N(5, "f"), N(6, "g")]), N(2, "c", [("s0.k0", 1)]), N(3, "d", [], [N(7, "h")])])
+        two = [N(0, "a", [("s0.k0", 1)], [N(2, "c", [("s0.k2", 3)])]), N(1, "b", [("s0.k1", 2)])]
+        P = lambda **k: dict({"clock": "datetime", "opt": None, "via": "arg", "arg_kind": "dict"}, **k)   # noqa: E731
         out = [
             case([]),                                                             # nothing supplied
             case([], batches=[0, 0], late=True, twice=True),
+            case([], no_list=True),                                               # components=None
             case([N(0, "a")], late=True, twice=True),
             case([chain], ms=[("s0.k0", 10), ("s1.k0", 30)], ov=[("s1.k0", 300), ("s0.k1", 200)], late=True, twice=True),
             case([wide, N(8, "z", [("s2.k0", 5)])], batches=[1, 1]),
@@ -496,6 +778,9 @@ class C20(Prop):
             case([N(0, "population_manager")]),
             case([N(0, "a", [], [N(1, "b", [], [N(2, "event_manager")])])], late=True),
             case([N(0, "a"), N(1, "datetime_clock", [("s0.k0", 1)])], batches=[1, 1], ov=[("s0.k0", 9)]),
+            case([N(0, "simple_clock")]),                                         # not a manager of THIS simulation: accepted
+            case([N(0, "simple_clock")], plugins=P(clock="simple")),
+            case([N(0, "datetime_clock")], plugins=P(clock="simple", via="ms"), ms_kind="yaml_str"),
             # clashing defaults: siblings, parent/child, across batches, same value, with a manager
             case([N(0, "a", [("s0.k0", 1)]), N(1, "b", [("s0.k0", 2)])]),
             case([N(0, "a", [("s0.k0", 1)], [N(1, "b", [("s0.k1", 2), ("s0.k0", 1)])])]),
@@ -514,14 +799,14 @@ class C20(Prop):
             case([N(0, "a", [("s0.k0", 1)], [N(1, "b", [("s0.k1", 2)])]), N(2, "c")], ov=[("s0.k1", 9)],
                  attempts=[("a", "s0.k0", 50, "update"), ("a", "s0.k0", 51, "setattr"), ("b", "s0.k0", 52, "setitem"),
                            ("b", "s0.k1", 53, "sub_update"), ("b", "fresh.k0", 54, "update"), ("c", "s0.fresh", 55, "sub_update"),
-                           ("c", "s0.k1", 56, "setattr")],
-                 post=[("s0.k0", 60, "update"), ("s0.k1", 61, "setattr"), ("late.k0", 62, "update"), ("s0.k0", 63, "setitem")]),
+                           ("c", "s0.k1", 56, "setattr"), ("c", "s0.k0.deep", 57, "update"), ("c", "s0", 58, "setattr")],
+                 post=[("s0.k0", 60, "update"), ("s0.k1", 61, "setattr"), ("late.k0", 62, "update"), ("s0.k0", 63, "setitem")],
+                 post_handle="stored"),
             case([N(0, "a", [("s0.k0", 1)])], ov=[("s0.k1", 9)], pre=[("s0.k0", 70)], post=[("s0.k0", 71, "update")]),
             case([N(0, "a", [("s0.k0", 1)])], ov=[("s0.k0", 9)], pre=[("s0.k0", 70)]),
             case([N(0, "a", [("s0.k0", 1)])], pre=[("early.k0", 70)], attempts=[("a", "early.k0", 5, "update")]),
-            # falsy user values are values: None / 0 / False / "" / [] over component and manager defaults, at depths 1-4,
-            # as override argument (plain dict and LayeredConfigTree) and in the model specification, and None over a
-            # model-specification value
+            case([N(0, "a", [("s0.k0", 1)])], pre=[("s0.k0.deep", 70)]),          # a shape conflict BEFORE freeze: refused, not frozen
+            # falsy / odd user values are values, at depths 1-4, through every configuration route
             case([N(0, "a", [("s0.k0", 1), ("s0.k1", 2), ("s3.d.k0", 3), ("s4.a.b.k0", 4), ("t0", 5)], [N(1, "b", [("s1.k0", 6)])])],
                  ov=[("s0.k0", None), ("s0.k1", 0), ("s3.d.k0", False), ("s4.a.b.k0", ""), ("t0", []), ("s1.k0", None)]),
             case([N(0, "a", [("s0.k0", 1), ("s0.k1", 2), ("s3.d.k0", 3), ("s4.a.b.k0", 4), ("t0", 5)], [N(1, "b", [("s1.k0", 6)])])],
@@ -529,14 +814,67 @@ class C20(Prop):
             case([N(0, "a", [("s0.k0", 1), ("s3.d.k0", 3), ("s4.a.b.k0", 4), ("t0", 5)])],
                  ms=[("s0.k0", None), ("s3.d.k0", 0), ("s4.a.b.k0", None), ("t0", False), ("s2.k2", [])]),
             case([N(0, "a", [("s0.k0", 1), ("s3.d.k0", 3)])], ms=[("s0.k0", None), ("s3.d.k0", 0)], ms_kind="lct"),
+            case([N(0, "a", [("s0.k0", 1), ("s3.d.k0", 3), ("t0", 4)])], ms=[("s0.k0", None), ("s3.d.k0", 0), ("t0", ""), ("s1.k1", [])],
+                 ms_kind="yaml_str"),
+            case([N(0, "a", [("s0.k0", 1), ("s3.d.k0", 3), ("t0", 4)])], ms=[("s0.k0", None), ("s3.d.k0", False), ("t0", "None"), ("s1.k1", 1.5)],
+                 ms_kind="yaml_path"),
             case([N(0, "a", [("s0.k0", 1)]), N(1, "b", [("s4.a.b.k1", 2)])], ms=[("s0.k0", 10), ("s4.a.b.k1", 20), ("t1", 30)],
                  ov=[("s0.k0", None), ("s4.a.b.k1", None), ("t1", None)]),
             case([N(0, "a", [("s0.k0", 1)])], ms=[("s0.k0", None)], ov=[("s0.k0", 0)]),
+            case([N(0, "a", [("s0.k0", [1, 2]), ("s0.k1", "text"), ("s0.k2", 1.5), ("s0.k3", True), ("t0", None)])],
+                 ms=[("s0.k0", [[1], [2, None]]), ("s0.k1", "0")], ov=[("s0.k2", -2.25), ("s0.k3", 1), ("t0", "a b: c")], ms_kind="yaml_str"),
             case([N(0, "a")], ov=[("interpolation.validate", None), ("interpolation.extrapolate", False), ("randomness.random_seed", None),
                                   ("stratification.default", None), ("randomness.additional_seed", 0), ("fresh.k0", None)],
                  probes=["interpolation.validate", "interpolation.extrapolate", "randomness.random_seed", "stratification.default",
                          "randomness.additional_seed", "fresh.k0", "interpolation.order"]),
             case([N(0, "a")], ms=[("interpolation.validate", None), ("interpolation.order", None)], ov=[("interpolation.order", False)]),
+            # every route for components: specification block (dict / LCT / YAML), components= dict / LCT, list, add (tuple, groups)
+            case(copy.deepcopy(two), n_spec=2, spec_via="ms"),
+            case(copy.deepcopy(two), n_spec=1, spec_via="ms", ms_kind="lct", ms=[("s0.k0", 10)]),
+            case(copy.deepcopy(two), n_spec=1, spec_via="ms", ms_kind="yaml_str", batches=[0, 1], ov=[("s0.k2", None)]),
+            case(copy.deepcopy(two), n_spec=2, spec_via="ms", ms_kind="yaml_path", ms=[("s0.k1", None)]),
+            case(copy.deepcopy(two), n_spec=2, spec_via="cdict", batches=[0]),
+            case(copy.deepcopy(two) + [N(5, "e")], n_spec=2, spec_via="clct", batches=[0, 1]),
+            case([N(0, "a"), N(1, "b"), N(2, "c"), N(3, "d"), N(4, "a")], n_spec=1, spec_via="ms", batches=[1, 1, 2],
+                 adds=[{"container": "tuple", "group": False}, {"container": "list", "group": True}]),   # duplicate: block vs last add
+            case([N(0, "a"), N(1, "a")], n_spec=1, spec_via="ms", batches=[1]),                           # duplicate: block vs list
+            case([N(0, "a"), N(1, "b"), N(2, "c")], batches=[0, 3], adds=[{"container": "tuple", "group": True}]),
+            case([N(0, "a"), N(1, "b")], batches=[1, 1, 0]),                                              # add_components([]) last
+            # every sub_components container, both ways of declaring defaults
+            case([N(0, "a", [("s0.k0", 1)], [N(1, "b", [("s0.k1", 2)], [N(2, "c")], sub="fresh"), N(3, "d", [], [], defs="class_attr")], sub="tuple"),
+                  N(4, "e", [("s1.k0", 3)], [N(5, "f", [("s1.k1", 4)], [], defs="class_attr")], sub="copy", defs="class_attr")]),
+            case([N(0, "a", [], [N(1, "b", [], [N(2, "b")], sub="fresh")], sub="fresh")]),                # duplicate below lazily created children
+            case([N(0, "a", [("s0.k0", 1)], [], defs="class_attr"), N(1, "b", [("s0.k0", 1)], [], defs="class_attr")]),   # two instances, one class
+            case([N(0, "a", [], [N(1, "b")], sub="gen")]),                                                # outside the signature: TypeError
+            case([N(0, "a", [], [], sub="gen")]),
+            # ~/vivarium.yaml (temp HOME): below component defaults, above nothing; loses to every other route
+            case([N(0, "a", [("s0.k0", 1)])], home=[("s0.k0", 5), ("h.k0", 6), ("s0.k1", None)], ms=[("s0.k1", 7)], ov=[("h.k1", 8)],
+                 probes=["s0.k0", "h.k0", "s0.k1", "h.k1", "absent.k"]),
+            case([N(0, "a", [("s0.k0", 1)])], home=[("population.population_size", 3)], probes=["population.population_size", "s0.k0"]),
+            case([], home=[]),
+            # plugin configuration: clock kind, optional manager (argument dict / LCT / in the specification), its clashes
+            case([N(0, "a", [("s0.k0", 1)])], plugins=P(clock="simple"), ov=[("time.step_size", 3)], probes=["time.step_size", "s0.k0", "time.start"]),
+            case([N(0, "a", [("s0.k0", 1)])], plugins=P(opt={"n": "probe_manager", "d": [["pm.k0", 4], ["pm.sub.k", 5]]}), ov=[("pm.k0", None)],
+                 attempts=[("probe_manager", "pm.k0", 9, "update"), ("probe_manager", "s0.k0", 9, "setattr")]),
+            case([N(0, "a")], plugins=P(opt={"n": "probe_manager", "d": [["pm.k0", 4]]}, arg_kind="lct")),
+            case([N(0, "a")], plugins=P(opt={"n": "probe_manager", "d": [["pm.k0", 4]]}, via="ms", clock="simple"), ms_kind="yaml_str"),
+            case([N(0, "probe_manager")], plugins=P(opt={"n": "probe_manager", "d": []})),
+            case([N(0, "a")], plugins=P(opt={"n": "a", "d": []})),
+            case([N(0, "a")], plugins=P(opt={"n": "population_manager", "d": []})),
+            case([N(0, "a")], plugins=P(opt={"n": "probe_manager", "d": [["population.population_size", 7]]})),
+            case([N(0, "a", [("pm.k0", 1)])], plugins=P(opt={"n": "probe_manager", "d": [["pm.k0", 4]]})),
+            # the same key at different depths
+            case([N(0, "a", [("s0.k0", 1)]), N(1, "b", [("s0.k0.deep", 2)])]),
+            case([N(1, "b", [("s0.k0.deep", 2)]), N(0, "a", [("s0.k0", 1)])], batches=[1, 1]),
+            case([N(0, "a", [("s0", 1)], [N(1, "b", [("s0.k0", 2)])])]),
+            case([N(0, "a", [("randomness", 1)])]),
+            case([N(0, "a", [("time.step_size.deep", 1)])]),
+            case([N(1, "b", [("s0.k0.deep", 2)])], ov=[("s0.k0", 5)]),
+            case([N(1, "b", [("s0.k0", 2)])], ov=[("s0.k0.deep", 5)], ov_kind="lct"),
+            case([N(1, "b", [("s0.k0", 2)])], ms=[("s0", 5)]),
+            case([], ms=[("s0", 5)], ov=[("s0.k0", 1)]),
+            case([], ms=[("s0.k0", 5)], home=[("s0", 1)]),
+            case([], ov=[("population", 5)]),
             # F18 (known finding): deletions from a component's setup – a whole section, one leaf, a user-supplied key,
             # a sub-tree, a key that does not exist (nothing to delete: not a finding)
             case([N(0, "a", [("s0.k0", 1), ("s1.k0", 2)])], delete=("s0", "delattr"), post=[("s1.k0", 5, "update")]),
@@ -547,13 +885,26 @@ class C20(Prop):
             case([N(0, "a", [("s3.d.k0", 1), ("s3.e.k0", 2)])], delete=("s3.d", "delitem")),
             case([N(0, "a", [("s0.k0", 1)])], delete=("absent", "delattr")),
         ]
-        return out
+        # earlier simulations in the same process: same names, same class (class attribute defaults), same keys, other user
+        # values; a rejected one; one that deletes; then the simulation that is judged
+        main = case([N(0, "a", [("s0.k0", 1), ("s0.k1", 2)], [N(1, "b", [("s1.k0", 3)], [], defs="class_attr")], defs="class_attr")],
+                    ms=[("s1.k0", 30)], probes=["s0.k0", "s0.k1", "s1.k0", "s2.k0", "fresh.k0", "population.population_size"])
+        b1 = case([N(0, "a", [("s0.k0", 1), ("s0.k1", 2)], [N(1, "b", [("s1.k0", 3)], [], defs="class_attr")], defs="class_attr"), N(2, "c", [("s2.k0", 4)])],
+                  ms=[("s0.k0", 11), ("fresh.k0", 12)], ov=[("s0.k1", None), ("s1.k0", 13), ("population.population_size", 7)],
+                  pre=[("s2.k0", 14)], delete=("s1", "delattr"), plugins=P(opt={"n": "probe_manager", "d": [["pm.k0", 4]]}))
+        b2 = case([N(0, "a", [("s0.k0", 5)]), N(1, "a")], home=[("s0.k1", 6)])
+        return [dict(main, before=[b1, b2])] + out
 
     def shrink(self, case):
+        case = fill(case)
         forest = case["forest"]
 
         def rebatch(f):
-            return dict(case, forest=f, batches=[len(f)])
+            return dict(case, forest=f, n_spec=0, spec_via=None, batches=[len(f)], adds=[])
+        if case["before"]:
+            yield dict(case, before=[])
+            for j in range(len(case["before"])):
+                yield dict(case, before=case["before"][:j] + case["before"][j + 1:])
         for i in range(len(forest)):
             yield rebatch(forest[:i] + forest[i + 1:])
         for i, t in enumerate(forest):                          # hoist children / drop a child / drop a default
@@ -563,12 +914,24 @@ class C20(Prop):
                 yield rebatch(forest[:i] + [dict(t, c=t["c"][:j] + t["c"][j + 1:])] + forest[i + 1:])
             for j in range(len(t["d"])):
                 yield dict(case, forest=forest[:i] + [dict(t, d=t["d"][:j] + t["d"][j + 1:])] + forest[i + 1:])
-        if len(case["batches"]) > 1:
-            yield dict(case, batches=[len(forest)])
-        for key in ("ms", "ov", "attempts", "pre", "post"):
-            for j in range(len(case[key])):
+            if t.get("sub", "list") != "list" or t.get("defs", "property") != "property":
+                yield dict(case, forest=forest[:i] + [dict(t, sub="list", defs="property")] + forest[i + 1:])
+        if len(case["batches"]) > 1 or case["n_spec"]:
+            yield rebatch(forest)
+        if case["home"] is not None:
+            yield dict(case, home=None)
+        if case["plugins"].get("opt") or case["plugins"]["clock"] != "datetime" or case["plugins"].get("via") == "ms":
+            yield dict(case, plugins={"clock": "datetime", "opt": None})
+            yield dict(case, plugins=dict(case["plugins"], via="arg", arg_kind="dict"))
+        if case["ms_kind"] not in (None, "dict"):
+            yield dict(case, ms_kind="dict")
+        if case["ov_kind"] == "lct":
+            yield dict(case, ov_kind="dict")
+        for key in ("ms", "ov", "attempts", "pre", "post", "home"):
+            for j in range(len(case[key] or [])):
                 c = dict(case, **{key: case[key][:j] + case[key][j + 1:]})
-                if key == "ms" and not c["ms"]:
+                need_ms = bool(c["ms"]) or c["spec_via"] == "ms" or c["plugins"].get("via") == "ms"
+                if not need_ms:
                     c["ms_kind"] = None
                 if key == "ov" and not c["ov"]:
                     c["ov_kind"] = None
@@ -584,20 +947,31 @@ class C20(Prop):
 
     # ------------------------------------------------------------------ implementation
     def run_impl(self, case):
+        case = fill(case)
+        case["before"] = [fill(b) for b in case["before"]]
         return _run(case)
 
     # ------------------------------------------------------------------ model
     def _plan(self, case, obs):
         """[(line, kind, payload)] – the operations the implementation actually performed, as driver lines"""
+        case = fill(case)
         plan = []
+        for p, v in case["home"] or []:                          # _get_default_specification: ~/vivarium.yaml first
+            plan.append((f"user user_config_path {p} {tok(v)}", "user", None))
         for p, v in case["ms"]:
             plan.append((f"user model_specification {p} {tok(v)}", "user", None))
         for p, v in case["ov"]:
             plan.append((f"user configuration {p} {tok(v)}", "user", None))
-        for name, defs in obs["mgrs"]:
+        for name, defs in model_managers(case):
             plan.append((f"mgr {name} {_enc_defs(defs, tokens=True)}", "mgr", name))
-        pos = 0
-        for k, st in zip(case["batches"], obs["stages"]):
+        stages = list(obs["stages"])
+        if has_gen(ctor_forest(case)):
+            return plan                                          # outside the signature: nothing to compare beyond the refusal
+        plan.append((f"add {_enc_forest(ctor_forest(case))}", "add", stages[0]))
+        pos = case["n_spec"] + case["batches"][0]
+        for k, st in zip(case["batches"][1:], stages[1:]):
+            if has_gen(case["forest"][pos:pos + k]):
+                return plan
             plan.append((f"add {_enc_forest(case['forest'][pos:pos + k])}", "add", st))
             pos += k
         for (p, v), o in zip(case["pre"], obs["pre"]):
@@ -631,17 +1005,22 @@ class C20(Prop):
 
     def compare(self, case, obs, replies):
         dis = []
-        for k, ((line, kind, pay), r) in enumerate(zip(self._plan(case, obs), replies)):
+        case = fill(case)
+        plan = self._plan(case, obs)
+        ctor = obs["stages"][0]["outcome"] if obs["stages"] else None
+        if len(plan) != len(replies):
+            return [f"{len(plan)} operations, {len(replies)} replies"]
+        for k, ((line, kind, pay), r) in enumerate(zip(plan, replies)):
             mo = self._outcome(r)
             t = r.split()
             if kind in ("user", "mgr"):
-                # a refusal here surfaces in the constructor: compared at the first `add`
-                if mo != "ok" and not (obs["stages"] and obs["stages"][0]["outcome"] == mo):
-                    dis.append(f"#{k} {line}: model {r}, constructor {obs['stages'][0]['outcome'] if obs['stages'] else None}")
+                # a refusal here surfaces in the constructor
+                if mo != "ok" and coarse(ctor) != coarse(mo):
+                    dis.append(f"#{k} {line}: model {r}, constructor {ctor}")
                 if mo != "ok":
                     break
             elif kind == "add":
-                if pay["outcome"] != mo:
+                if coarse(pay["outcome"]) != coarse(mo):
                     dis.append(f"#{k} {pay['op']} [{line[:70]}]: impl {pay['outcome']}, model {r[:60]}")
                 elif mo == "ok":
                     names = [] if t[1] == "-" else t[1].split(",")
@@ -650,7 +1029,7 @@ class C20(Prop):
                 if pay["outcome"] != "ok" or mo != "ok":
                     break
             elif kind == "set":
-                if pay != mo:
+                if coarse(pay) != coarse(mo):
                     dis.append(f"#{k} {line}: impl {pay}, model {mo}")
             elif kind == "setup":
                 if pay["outcome"] != mo:
@@ -689,33 +1068,59 @@ class C20(Prop):
         return dis
 
     # ------------------------------------------------------------------ oracle (the property itself)
-    def _facts(self, case, obs):
+    def _facts(self, case):
+        """everything the oracle knows – from the case and the constants above, nothing from the implementation"""
+        case = fill(case)
         flat = preorder(case["forest"])
         names = [t["n"] for t in flat]
-        mgr_names = set(obs.get("mgrs_live") or [n for n, _ in obs["mgrs"]])
-        mgr_paths = {p for _, defs in obs["mgrs"] for p, _ in defs}
-        dup_name = len(set(names)) != len(names)
-        mgr_clash = any(n in mgr_names for n in names)
-        paths = [p for t in flat for p, _ in t["d"]]
-        dup_default = len(set(paths)) != len(paths) or any(p in mgr_paths for p in paths)
-        return flat, names, mgr_names, dup_name, mgr_clash, dup_default
+        mgrs = expected_managers(case)
+        opt = case["plugins"].get("opt") or {"d": []}
+        comp_paths = [p for t in flat for p, _ in t["d"]]
+        mgr_paths = list(MGR_PATHS) + [p for p, _ in opt["d"]]
+        if case["plugins"]["clock"] == "simple":
+            mgr_paths += ["time.start", "time.end"]
+        F = {
+            "flat": flat, "names": names, "mgrs": mgrs,
+            "dup_name": len(set(names)) != len(names),
+            "mgr_clash": any(n in mgrs for n in names),
+            "mgr_dup": len(set(mgrs)) != len(mgrs),
+            "dup_default": len(set(comp_paths)) != len(comp_paths) or any(p in mgr_paths for p in comp_paths)
+            or len(set(mgr_paths)) != len(mgr_paths),
+            "conflict_default": any(strict_conflict(a, b) for a in comp_paths + mgr_paths for b in comp_paths),
+            "gen": has_gen(case["forest"]),
+        }
+        user_paths = [p for p, _ in case["ms"]] + [p for p, _ in case["ov"]] + [p for p, _ in (case["home"] or [])]
+        # a user value at another depth than anything else: the user's input is malformed, refusing it is legitimate
+        F["conflict_user"] = any(strict_conflict(u, q) for u in user_paths for q in user_paths + comp_paths + mgr_paths) \
+            or any(under(u, m) and u != m for u in user_paths for m in
+                   ["population", "randomness", "time", "interpolation", "stratification", "input_data",
+                    "time.start", "time.end", "randomness.key_columns"])
+        F["must_reject"] = F["dup_name"] or F["mgr_clash"] or F["mgr_dup"] or F["dup_default"] or F["conflict_default"]
+        F["may_reject"] = F["conflict_user"] or F["gen"]
+        return F
 
     def oracle(self, case, obs):
         f = []
-        flat, names, mgr_names, dup_name, mgr_clash, dup_default = self._facts(case, obs)
+        case = fill(case)
+        F = self._facts(case)
+        flat, names, mgr_names = F["flat"], F["names"], F["mgrs"]
         outcomes = [s["outcome"] for s in obs["stages"]] + ([obs["setup"]["outcome"]] if obs["setup"] else [])
         completed = obs["setup"] is not None and obs["setup"]["outcome"] == "ok"
+        allowed = {"ok", "dupname", "dupvalue"} | ({"structure"} if (F["conflict_default"] or F["conflict_user"]) else set()) \
+            | ({"cfgerr"} if F["conflict_user"] else set()) | ({"other:TypeError"} if F["gen"] else set())
         for o in outcomes:
-            if o != "ok" and o not in REJECTIONS:
+            if o not in allowed:
                 f.append({"sig": "unexpected-exception", "msg": f"stage outcomes {outcomes}"})
                 return f
-        if dup_name and completed:
+        if F["dup_name"] and completed:
             f.append({"sig": "duplicate-name-accepted", "msg": f"component names {names} were all registered and set up"})
-        if mgr_clash and not dup_name and completed:
-            f.append({"sig": "manager-name-accepted", "msg": f"a component is named like a framework manager: {[n for n in names if n in mgr_names]}"})
-        if dup_default and not dup_name and not mgr_clash and completed:
-            f.append({"sig": "duplicate-default-accepted", "msg": f"defaults {[(t['n'], t['d']) for t in flat if t['d']]} were all applied"})
-        if not (dup_name or mgr_clash or dup_default) and not completed:
+        elif (F["mgr_clash"] or F["mgr_dup"]) and completed:
+            f.append({"sig": "manager-name-accepted", "msg": f"components {[n for n in names if n in mgr_names]} / managers {mgr_names[-2:]} share a name"})
+        elif F["dup_default"] and completed:
+            f.append({"sig": "duplicate-default-accepted", "msg": f"defaults {[(t['n'], t['d']) for t in flat if t['d']]} (+ managers) were all applied"})
+        elif F["conflict_default"] and completed:
+            f.append({"sig": "conflicting-defaults-accepted", "msg": f"the same key is defaulted at two depths: {[(t['n'], t['d']) for t in flat if t['d']]}"})
+        if not F["must_reject"] and not F["may_reject"] and not completed:
             f.append({"sig": "valid-program-rejected", "msg": f"unique names {names}, disjoint defaults, stage outcomes {outcomes}"})
         if not completed:
             return f
@@ -729,44 +1134,61 @@ class C20(Prop):
             if comp_calls.count(n) != names.count(n):
                 f.append({"sig": "component-setup-count", "msg": f"{n}: supplied {names.count(n)} time(s), set up {comp_calls.count(n)} time(s); setup log {comp_calls}"})
                 break
-        # after all framework managers
+        # after all framework managers (the list of the property's anchor, not the implementation's)
         first_comp = next((i for i, (k, _) in enumerate(log) if k == "comp"), len(log))
         late_mgrs = [n for i, (k, n) in enumerate(log) if k == "mgr" and i > first_comp]
-        missing = sorted(mgr_names - {n for k, n in log if k == "mgr"})
+        missing = sorted(set(mgr_names) - {n for k, n in log if k == "mgr"})
         if comp_calls and (late_mgrs or missing):
             f.append({"sig": "component-before-manager", "msg": f"managers set up after the first component: {late_mgrs}; never set up: {missing}"})
         # after its parent
-        if not dup_name:
+        if not F["dup_name"]:
             pos = {n: i for i, n in enumerate(comp_calls)}
             for t in flat:
                 for c in t["c"]:
                     if t["n"] in pos and c["n"] in pos and pos[c["n"]] < pos[t["n"]]:
                         f.append({"sig": "child-before-parent", "msg": f"{c['n']} was set up before its parent {t['n']}: {comp_calls}"})
                         break
-        # user values win, during setup and afterwards, whatever the order
-        ov, ms = dict(map(tuple, case["ov"])), dict(map(tuple, case["ms"]))
-        touched = {p for p, _ in case["pre"]}
-        # F18: a deletion from a component's setup that is accepted (layered_config_tree ignores freeze() in
-        # __delattr__/__delitem__). Exactly this input class gets its own signature; what follows from it (the deleted
-        # keys read differently afterwards) is not reported a second time under another signature.
+        # F18: a deletion from a component's setup that is accepted. Exactly this input class gets its own signature; what
+        # follows from it (the deleted keys read differently afterwards) is not reported a second time.
         d = obs["setup"].get("deleted")
         gone = d[1] if d and d[2] == "ok" else None
         if gone is not None:
             f.append({"sig": "config-delete-after-freeze",
                       "msg": f"component {d[0]} ran `del builder.configuration.{gone}` inside setup(): accepted, "
                              f"values afterwards {[x for x in obs['values'] if under(gone, x[0])]}"})
+        # what every probed key must read, during setup and afterwards, derived from the case alone:
+        # override argument > model specification > the one default > ~/vivarium.yaml > nothing
+        ov, ms, home = dict(map(tuple, case["ov"])), dict(map(tuple, case["ms"])), dict(map(tuple, case["home"] or []))
+        defaults = {}
+        for t in flat:
+            for p, v in t["d"]:
+                defaults[p] = v
+        for p, v in (case["plugins"].get("opt") or {"d": []})["d"]:
+            defaults[p] = v
+        touched = {p for p, _ in case["pre"]}
         idx = {p: i for i, p in enumerate(case["probes"])}
+        after = dict(map(tuple, obs["values"]))
         for p in case["probes"]:
-            if p in touched or not (p in ov or p in ms) or (gone is not None and under(gone, p)):
+            if p in touched or (gone is not None and under(gone, p)) or any(strict_conflict(p, q) for q in list(ov) + list(ms) + list(home) + list(defaults)):
                 continue
-            want = tok(ov[p] if p in ov else ms[p])
-            got = dict(map(tuple, obs["values"])).get(p)
-            if got != want:
-                f.append({"sig": "user-value-lost", "msg": f"{p}: user supplied {'override ' + str(ov[p]) if p in ov else 'model specification ' + str(ms[p])}, configuration returns {got}"})
+            if p in ov:
+                want, sig, who = tok(ov[p]), "user-value-lost", f"override argument {ov[p]!r}"
+            elif p in ms:
+                want, sig, who = tok(ms[p]), "user-value-lost", f"model specification {ms[p]!r}"
+            elif p in defaults:
+                want, sig, who = tok(defaults[p]), "default-not-applied", f"the only default {defaults[p]!r}"
+            elif any(under(m.split(".")[0], p) for m in list(MGR_PATHS) + ["input_data", "time"]):
+                continue                                           # a built-in manager's default: not the oracle's business
+            elif p in home:
+                want, sig, who = tok(home[p]), "home-config-value-lost", f"~/vivarium.yaml {home[p]!r}"
+            else:
+                want, sig, who = None, "phantom-value", "nobody"
+            if after.get(p) != want:
+                f.append({"sig": sig, "msg": f"{p}: supplied by {who}, configuration returns {after.get(p)} (expected {want})"})
                 break
             wrong = [(n, s[idx[p]]) for n, s in obs["setup"]["seen"] if s[idx[p]] != want]
             if wrong:
-                f.append({"sig": "user-value-lost", "msg": f"{p}: user supplied {want}, seen during setup: {wrong[:3]}"})
+                f.append({"sig": sig, "msg": f"{p}: supplied by {who} (expected {want}), seen during setup: {wrong[:3]}"})
                 break
         # the configuration cannot be modified once setup has begun
         acc = [t for t in obs["setup"]["tried"] if t[2] == "ok"]
@@ -787,27 +1209,54 @@ class C20(Prop):
 
     # ------------------------------------------------------------------ reporting
     def nontrivial(self, case, obs):
-        flat, names, mgr_names, dup_name, mgr_clash, dup_default = self._facts(case, obs)
+        case = fill(case)
+        F = self._facts(case)
         completed = obs["setup"] is not None and obs["setup"]["outcome"] == "ok"
-        defaulted = {p for t in flat for p, _ in t["d"]}
+        defaulted = {p for t in F["flat"] for p, _ in t["d"]}
         user = {p for p, _ in case["ov"]} | {p for p, _ in case["ms"]}
         if completed:
             return depth(case["forest"]) >= 2 and bool(defaulted & user)
-        return depth(case["forest"]) >= 2 and (dup_name or mgr_clash or dup_default)
+        return depth(case["forest"]) >= 2 and F["must_reject"]
 
     def tags(self, case, obs):
-        flat, names, mgr_names, dup_name, mgr_clash, dup_default = self._facts(case, obs)
+        case = fill(case)
+        F = self._facts(case)
+        flat = F["flat"]
         t = [f"depth:{depth(case['forest'])}", "nodes:" + ("0" if not flat else "1" if len(flat) == 1 else "2-5" if len(flat) <= 5 else "6-10" if len(flat) <= 10 else "11+"),
              "fanout:" + str(max([len(x["c"]) for x in flat] + [0])),
-             "supply:" + ("ctor" if len(case["batches"]) == 1 else "add-only" if case["batches"][0] == 0 else "ctor+add"),
-             f"ms:{case['ms_kind']}", f"ov:{case['ov_kind']}"]
+             f"ms:{case['ms_kind']}", f"ov:{case['ov_kind']}", f"clock:{case['plugins']['clock']}",
+             "home:" + ("none" if case["home"] is None else "empty" if not case["home"] else "values"),
+             f"earlier-simulations:{len(case['before'])}"]
+        routes = []
+        if case["n_spec"]:
+            routes.append("block-" + case["spec_via"] + ("-" + str(case["ms_kind"]) if case["spec_via"] == "ms" else ""))
+        if case["batches"][0]:
+            routes.append("list")
+        if len(case["batches"]) > 1:
+            routes.append(f"add-x{len(case['batches']) - 1}")
+        t.append("routes:" + ("+".join(routes) or "none"))
+        t += ["route:" + r for r in routes]
+        for a, k in zip(case["adds"], case["batches"][1:]):
+            t.append("add-container:" + a["container"] + ("+nested-group" if a["group"] and k >= 2 else ""))
+            if k == 0:
+                t.append("add-container:empty")
+        if case["plugins"].get("opt"):
+            t.append("optional-manager:" + case["plugins"].get("via", "arg") + "-" + case["plugins"].get("arg_kind", "dict"))
+        if plugin_dict(case["plugins"]):
+            t.append("plugins-via:" + case["plugins"].get("via", "arg"))
+        for x in flat:
+            t.append("sub_components:" + x.get("sub", "list") + ("" if x["c"] else "(empty)"))
+            t.append("defaults-declared:" + (x.get("defs", "property") if x["d"] else "none"))
         for s in obs["stages"]:
             t.append(f"{s['op']}:{s['outcome']}")
         if obs["setup"]:
             t.append("setup:" + obs["setup"]["outcome"])
             t += ["write-from-setup:" + o for _, _, o in obs["setup"]["tried"]]
+            opt = case["plugins"].get("opt")
+            if opt and any(n == opt["n"] for n, _, _ in obs["setup"]["tried"]):
+                t.append("write-from-setup:by-a-manager")
         t += ["write-before-setup:" + o for o in obs["pre"]]
-        t += ["write-after-setup:" + o for o in obs["post"]]
+        t += ["write-after-setup:" + o + "@" + case["post_handle"] for o in obs["post"]]
         t += ["write-how:" + a[3] for a in case["attempts"]] + ["write-how-after:" + a[2] for a in case["post"]]
         if obs["late_add"]:
             t.append("add-after-setup:" + obs["late_add"]["outcome"])
@@ -816,9 +1265,9 @@ class C20(Prop):
         ids = [x["id"] for x in flat]
         if len(set(ids)) != len(ids):
             t.append("fault:same-object-twice")
-        elif dup_name:
+        elif F["dup_name"]:
             t.append("fault:duplicate-name")
-        if dup_name:
+        if F["dup_name"]:
             seen, dd = {}, 0
             stack = [(x, 1) for x in case["forest"]]
             while stack:
@@ -828,29 +1277,51 @@ class C20(Prop):
                 seen.setdefault(x["n"], d)
                 stack += [(c, d + 1) for c in x["c"]]
             t.append(f"fault:duplicate-depth:{dd}")
-        if mgr_clash:
-            t.append("fault:manager-name")
-        if dup_default:
-            mp = {p for _, defs in obs["mgrs"] for p, _ in defs}
-            t.append("fault:default-vs-manager" if any(p in mp for x in flat for p, _ in x["d"]) else "fault:two-defaults")
-        if not (dup_name or mgr_clash or dup_default):
+            owner = {}
+            pos, k = 0, 0
+            cuts = [case["n_spec"], case["batches"][0]] + case["batches"][1:]
+            for bi, kk in enumerate(cuts):
+                for tr in case["forest"][pos:pos + kk]:
+                    for x in preorder([tr]):
+                        owner.setdefault(x["n"], set()).add(bi)
+                pos += kk
+            if any(len(v) > 1 for v in owner.values()):
+                t.append("fault:duplicate-across-routes")
+        if F["mgr_clash"]:
+            t.append("fault:manager-name" + ("(optional manager)" if case["plugins"].get("opt") and case["plugins"]["opt"]["n"] in F["names"] else ""))
+        if F["mgr_dup"]:
+            t.append("fault:two-managers-one-name")
+        if F["dup_default"]:
+            t.append("fault:duplicate-default")
+        if F["conflict_default"]:
+            t.append("fault:same-key-two-depths(defaults)")
+        if F["conflict_user"]:
+            t.append("fault:same-key-two-depths(user)")
+        if F["gen"]:
+            t.append("outside-signature:generator-sub_components")
+        if not (F["must_reject"] or F["may_reject"]):
             t.append("valid-program")
         defaulted = {p for x in flat for p, _ in x["d"]}
-        ov, ms = {p for p, _ in case["ov"]}, {p for p, _ in case["ms"]}
-        mgrp = {p for _, defs in obs["mgrs"] for p, _ in defs}
+        ov, ms, home = {p for p, _ in case["ov"]}, {p for p, _ in case["ms"]}, {p for p, _ in (case["home"] or [])}
+        mgrp = set(MGR_PATHS)
         for lab, s in (("ov>ms>default", ov & ms & defaulted), ("ov>default", (ov - ms) & defaulted), ("ms>default", (ms - ov) & defaulted),
                        ("ov>ms", (ov & ms) - defaulted), ("user>manager-default", (ov | ms) & mgrp), ("default-only", defaulted - ov - ms),
-                       ("user-only", (ov | ms) - defaulted - mgrp)):
+                       ("user-only", (ov | ms) - defaulted - mgrp), ("default>home", (home & defaulted) - ov - ms), ("home-only", home - defaulted - ov - ms - mgrp),
+                       ("user>home", home & (ov | ms))):
             if s:
                 t.append("layering:" + lab)
-        for lab, kind, pairs in (("ov", case["ov_kind"], case["ov"]), ("ms", case["ms_kind"], case["ms"])):
+        for lab, kind, pairs in (("ov", case["ov_kind"], case["ov"]), ("ms", case["ms_kind"], case["ms"]), ("home", "yaml", case["home"] or []),
+                                 ("default", "component", [x for n in flat for x in n["d"]])):
             for pth, v in pairs:
-                vk = "None" if v is None else "False" if v is False else "0" if (v == 0 and not isinstance(v, bool)) else \
-                    "empty-str" if v == "" else "empty-list" if v == [] else "ordinary"
-                t.append(f"user-value:{vk}@{lab}-{kind}")
-                t.append(f"user-key-depth:{pth.count('.') + 1}")
-                if vk != "ordinary" and (pth in defaulted or pth in mgrp):
-                    t.append(f"falsy-user-value-over-default:{vk}")
+                vk = "None" if v is None else "bool" if isinstance(v, bool) else "0" if v == 0 else "int" if isinstance(v, int) else \
+                    "float" if isinstance(v, float) else ("empty-str" if v == "" else "str") if isinstance(v, str) else \
+                    ("empty-list" if v == [] else "list") if isinstance(v, list) else "other"
+                t.append(f"value:{vk}@{lab}" + (f"-{kind}" if lab in ("ov", "ms") else ""))
+                if lab != "default":
+                    t.append(f"user-key-depth:{pth.count('.') + 1}")
+                    if vk in ("None", "0", "empty-str", "empty-list") or v is False:
+                        if pth in defaulted or pth in mgrp:
+                            t.append(f"falsy-user-value-over-default:{vk}")
         if obs["setup"] and obs["setup"].get("deleted"):
             d = obs["setup"]["deleted"]
             t.append("delete-from-setup:" + d[2])
@@ -862,14 +1333,17 @@ class C20(Prop):
         return t
 
     def sample_view(self, case, obs):
-        return {"forest": [self._show(t) for t in case["forest"]], "batches": case["batches"], "ms": case["ms"], "ov": case["ov"],
+        case = fill(case)
+        return {"forest": [self._show(t) for t in case["forest"]], "routes": [case["n_spec"], case["spec_via"], case["batches"]],
+                "ms": [case["ms_kind"], case["ms"]], "ov": [case["ov_kind"], case["ov"]], "home": case["home"], "plugins": case["plugins"],
+                "earlier_simulations": len(case["before"]),
                 "stages": [[s["op"], s["outcome"]] for s in obs["stages"]],
                 "setup": obs["setup"] and {"outcome": obs["setup"]["outcome"], "order": [n for _, n in obs["setup"]["log"]][-8:],
                                            "tried": obs["setup"]["tried"], "deleted": obs["setup"].get("deleted")},
                 "values": obs["values"]}
 
     def _show(self, t):
-        return {t["n"]: [dict(map(tuple, t["d"])), [self._show(c) for c in t["c"]]]}
+        return {t["n"]: [dict((p, repr(v)) for p, v in t["d"]), t.get("sub"), t.get("defs"), [self._show(c) for c in t["c"]]]}
 
 
 PROP = C20()
